@@ -26,4 +26,4 @@ def pytest_unconfigure(config):
     out = os.environ.get('VERIF_TRACE_OUT')
     if out:
         with open(out, 'w') as f:
-            json.dump(t.drain(), f)
+            json.dump({'broken': t.broken, 'traces': t.drain()}, f)
